@@ -27,6 +27,9 @@ ASSUMPTIONS = [
     "torch (fft, jit, RNG) and numpy are trusted; sample values are one generic signal per length "
     "(mc/sig.py) plus an all-zero signal (log floor); float32 points feed both sides the same "
     "float32 values",
+    "configurations in which a filter of the bank has no DFT bin at all (empty truncated response; "
+    "tiny Fbank at DFT size 2, i.e. L=2 only) are outside the lattice: PyTorchSTFTFrameComputer documents that "
+    "it refuses empty filters (ValueError), the NumPy coefficient there is constantly the floor",
     "dither moments are a deterministic fixed-seed computation with a 6-standard-error band "
     "(DESIGN section 4), not a distributional proof",
 ]
@@ -880,7 +883,8 @@ def subchecks(tier, seed):
             "PyTorchSTFTFrameComputer.from_stft_frame_computer(c)(x) vs c.compute_full(x) at every "
             "lattice point; inner loop use_log x use_power x include_energy x N in {0,1,L//2} "
             "(both empty, same columns) U {L,L+1,2L+1,3L+S} (+zero signal at N=L; + the functional "
-            "form with dft_size=None when padded); L//2+1 <= N < L is outside the property's domain; "
+            "form with dft_size=None vs the module when padded); L//2+1 <= N < L and banks with an "
+            "empty truncated filter are outside the property's domain (skipped); "
             "non-trivial = at least one frame compared in value",
             axes=dict(bank=banks, L=Ls, S="{1,2,3,L}", pad=[True, False],
                       style=["causal", "centered", "centered+kaldi"], window=["hamming", "default"],
